@@ -715,7 +715,6 @@ func s24() scenario {
 	}}
 }
 
-
 // ---- S25: the order-field helpers (inverse, product, implicit signature) on two threads with scheduling points
 // between the assembly calls of their addition chains (cmd/mkc20overlay stmtYield): their temporaries are written by
 // assembly only, so sharing one between calls shows as a wrong result, not as a race report.
